@@ -552,7 +552,8 @@ def walk (c : Ctx) : Pos → List Op → Option (List Ev)
 The five cursor classes (`cursor`, `init_cursor_wrapper`, `init_dont_move_cursor_wrapper`,
 `dont_move_cursor_wrapper`, `skip_cursor_wrapper`) method by method, and the traversal a client
 performs with them: every member of a message in schema order through a plain cursor, entries
-through `cursor_range`, and ONE member (the target) through a chosen wrapper. -/
+through `cursor_range`, and ONE member (the target) through a chosen wrapper — read, or (scalar
+fields) written through the wrapper's setter. -/
 
 inductive CVar
   | plain | init | dontMove | initDontMove | skip
@@ -626,27 +627,59 @@ def curAssert (c : Ctx) (site : Site) (ptrName : String) (vb abs ptr rel : Nat) 
 def curCheck (c : Ctx) (site : Site) (k : Nat) (ptrName offName szName : String) (b off sz : Nat) : Ev :=
   .check b off sz (evalSizeCheck site k [(ptrName, c.p b), ("end", c.endp), (offName, u64 off), (szName, u64 sz)])
 
-/-- scalar field through a cursor: events, new cursor position -/
-def curScalar (c : Ctx) (v : CView) (f : CField) (ptr : Nat) : CVar → List Ev × Nat
+/-- name of the size argument in the extracted sites: getters `sizeof(U)`, setters `sizeof(T)` -/
+def szName (w : Bool) : String := if w then "sizeof_T" else "sizeof_U"
+
+/-- `cursor::get_value` / `get_last_value` / `set_value` / `set_last_value` -/
+def plainSite (last w : Bool) : Site :=
+  match last, w with
+  | false, false => cursor_get_value__view_offset_absolute_offset
+  | true, false => cursor_get_last_value__view_offset_absolute_offset
+  | false, true => cursor_set_value__view_offset_absolute_offset_value
+  | true, true => cursor_set_last_value__view_offset_absolute_offset_value
+
+def initSite (last w : Bool) : Site :=
+  match last, w with
+  | false, false => init_cursor_wrapper_get_value__view_size_t_absolute_offset
+  | true, false => init_cursor_wrapper_get_last_value__view_size_t_absolute_offset
+  | false, true => init_cursor_wrapper_set_value__view_size_t_absolute_offset_value
+  | true, true => init_cursor_wrapper_set_last_value__view_size_t_absolute_offset_value
+
+def dontMoveSite (last w : Bool) : Site :=
+  match last, w with
+  | false, false => dont_move_cursor_wrapper_get_value__view_offset_absolute_offset
+  | true, false => dont_move_cursor_wrapper_get_last_value__view_offset_absolute_offset
+  | false, true => dont_move_cursor_wrapper_set_value__view_offset_absolute_offset_value
+  | true, true => dont_move_cursor_wrapper_set_last_value__view_offset_absolute_offset_value
+
+/-- `init_dont_move_cursor_wrapper::get_last_value` / `set_last_value` forward to `get_value` / `set_value` -/
+def initDontMoveSite (w : Bool) : Site :=
+  if w then init_dont_move_cursor_wrapper_set_value__view_offset_absolute_offset_value
+  else init_dont_move_cursor_wrapper_get_value__view_offset_absolute_offset
+
+/-- scalar field through a cursor: events, new cursor position.  `w = false`: the getter
+    `v.NAME(c)`; `w = true`: the setter `v.NAME(value, c)` (`set_value` / `set_last_value` of the
+    cursor class: the same statements in the same order with `set_primitive` in place of
+    `get_primitive` — assertion, size check, access, cursor update; `init_dont_move`: size check,
+    cursor update, access).  `skip_cursor_wrapper` has no setters: `w` is ignored there. -/
+def curScalar (c : Ctx) (v : CView) (f : CField) (ptr : Nat) (w : Bool) : CVar → List Ev × Nat
   | .plain =>
-    let site := if f.last then cursor_get_last_value__view_offset_absolute_offset else cursor_get_value__view_offset_absolute_offset
-    ([curAssert c site "ptr" v.vb f.abs ptr f.rel, curCheck c site 1 "ptr" "offset" "sizeof_U" ptr f.rel f.size,
-      .touch (ptr + f.rel) f.size false] ++ (if f.last then (lvEnd c v).1 else []),
+    let site := plainSite f.last w
+    ([curAssert c site "ptr" v.vb f.abs ptr f.rel, curCheck c site 1 "ptr" "offset" (szName w) ptr f.rel f.size,
+      .touch (ptr + f.rel) f.size w] ++ (if f.last then (lvEnd c v).1 else []),
      if f.last then (lvEnd c v).2 else ptr + f.rel + f.size)
   | .init =>
-    let site := if f.last then init_cursor_wrapper_get_last_value__view_size_t_absolute_offset
-                else init_cursor_wrapper_get_value__view_size_t_absolute_offset
-    ([curCheck c site 0 "begin" "absolute_offset" "sizeof_U" v.vb f.abs f.size, .touch (v.vb + f.abs) f.size false]
+    let site := initSite f.last w
+    ([curCheck c site 0 "begin" "absolute_offset" (szName w) v.vb f.abs f.size, .touch (v.vb + f.abs) f.size w]
        ++ (if f.last then (lvEnd c v).1 else []),
      if f.last then (lvEnd c v).2 else v.vb + f.abs + f.size)
   | .dontMove =>
-    let site := if f.last then dont_move_cursor_wrapper_get_last_value__view_offset_absolute_offset
-                else dont_move_cursor_wrapper_get_value__view_offset_absolute_offset
+    let site := dontMoveSite f.last w
     ([curAssert c site "cursor_ptr" v.vb f.abs ptr f.rel,
-      curCheck c site 1 "cursor_ptr" "offset" "sizeof_U" ptr f.rel f.size, .touch (ptr + f.rel) f.size false], ptr)
+      curCheck c site 1 "cursor_ptr" "offset" (szName w) ptr f.rel f.size, .touch (ptr + f.rel) f.size w], ptr)
   | .initDontMove =>
-    ([curCheck c init_dont_move_cursor_wrapper_get_value__view_offset_absolute_offset 0 "begin" "absolute_offset"
-        "sizeof_U" v.vb f.abs f.size, .touch (v.vb + f.abs) f.size false], v.vb + f.abs - f.rel)
+    ([curCheck c (initDontMoveSite w) 0 "begin" "absolute_offset" (szName w) v.vb f.abs f.size,
+      .touch (v.vb + f.abs) f.size w], v.vb + f.abs - f.rel)
   | .skip =>
     let site := if f.last then skip_cursor_wrapper_get_last_value__view_offset_absolute_offset
                 else skip_cursor_wrapper_get_value__view_offset_absolute_offset
@@ -684,8 +717,9 @@ def curView (c : Ctx) (v : CView) (f : CField) (ptr : Nat) : CVar → List Ev ×
        ++ (if f.last then (lvEnd c v).1 else []),
      if f.last then (lvEnd c v).2 else ptr + f.rel + f.size)
 
-def curField (c : Ctx) (v : CView) (f : CField) (ptr : Nat) (var : CVar) : List Ev × Nat :=
-  if f.isView then curView c v f ptr var else curScalar c v f ptr var
+/-- composite / array fields have no setters (the accessor returns a view): `w` matters for scalars only -/
+def curField (c : Ctx) (v : CView) (f : CField) (ptr : Nat) (var : CVar) (w : Bool := false) : List Ev × Nat :=
+  if f.isView then curView c v f ptr var else curScalar c v f ptr w var
 
 /-- `SBEPP_ASSERT(getter()(addressof_tag{}) == ptr)`: the getter is the random-access accessor -/
 def getterAssert (c : Ctx) (site : Site) (ptrName : String) (getter : List Ev × Nat) (ptr : Nat) : List Ev :=
@@ -745,13 +779,19 @@ structure Trav where
   stop : Bool
   deriving Inhabited
 
-/-- which wrapper member number `k` is accessed with; the traversal ends after the target -/
+/-- which wrapper member number `k` is accessed with, and whether it is WRITTEN (`set`: the setter
+    `v.NAME(value, wrapper)` of a scalar field; groups, data and composite / array fields are
+    obtained as views either way); the traversal ends after the target -/
 structure Target where
   k : Nat
   var : CVar
+  set : Bool := false
   deriving Inhabited
 
 def Trav.var (t : Trav) (tg : Target) : CVar := if t.k = tg.k then tg.var else .plain
+
+/-- members before the target are read -/
+def Trav.set (t : Trav) (tg : Target) : Bool := decide (t.k = tg.k) && tg.set
 
 /-- record one member access; stop after the target or when the run does not complete -/
 def Trav.after (n : Nat) (t : Trav) (tg : Target) (e : List Ev) (ptr : Nat) : Trav :=
@@ -761,7 +801,8 @@ def travFields (c : Ctx) (v : CView) (tg : Target) : List CField → Trav → Tr
   | [], t => t
   | f :: fs, t =>
     if t.stop then t
-    else travFields c v tg fs (t.after c.n tg (curField c v f t.ptr (t.var tg)).1 (curField c v f t.ptr (t.var tg)).2)
+    else travFields c v tg fs (t.after c.n tg (curField c v f t.ptr (t.var tg) (t.set tg)).1
+                                               (curField c v f t.ptr (t.var tg) (t.set tg)).2)
 
 def travDatas (c : Ctx) (v : CView) (tg : Target) (getterOf : Nat → List Ev × Nat) :
     List DataL → Nat → Bool → Trav → Trav
